@@ -2,6 +2,7 @@
 import json, os
 from lib import vf
 from lib import trxd as T
+from props import msg_reuse_part as reuse
 from gen import trxd_consts
 
 ID = "C01"
@@ -295,6 +296,10 @@ def search(run, corr, deep):
         corr.distribution["oracle: round trips through a re-used decoder object" + (" (deep)" if dp else "")] = len(rreq)
         if fails:
             break
+    # the encoder on a message object that was encoded before (fields assigned / burst overwritten in place since)
+    rf = reuse.run(run, corr, [x for x in messages(run) if in_quantifier(x[0], x[1])][:: 3], True, "C01")
+    if rf:
+        found += run.report_witness(reuse.witness(rf[0], len(rf)))
     corr.distribution["oracle: violating round trips"] = len(fails)
     seen = set()
     for f in fails:
@@ -335,6 +340,11 @@ def replay(run, path):
         w = v.get("witness")
         if not w:
             print("replay: no concrete input recorded (%s)" % json.dumps(v.get("broken"))[:400])
+            continue
+        if w.get("kind") == "message-object-reused":
+            still, text = reuse.replay(w)
+            print(text)
+            bad += still
             continue
         kind = "tx" if w["class"] == "TxMsg" else "rx"
         l = w.get("legacy", 0)
